@@ -20,7 +20,8 @@ Section SchemaProofs.
     unfold sstep. destruct i as [v c tpls|v template o].
     - destruct (find_schema (ss_schemas ss) v); unfold fail; intros H; inversion H; reflexivity.
     - destruct (find_ik (s_logs (ss_base ss)) (o_ik o)) as [l|].
-      + destruct (step f now (ss_base ss) o) as [s' [lid tid hit|e']|] eqn:E; intros H; inversion H; subst.
+      + destruct (negb _); [unfold fail; intros H; inversion H; reflexivity|].
+        destruct (step f now (ss_base ss) o) as [s' [lid tid hit|e']|] eqn:E; intros H; inversion H; subst.
         apply tables_stables. eapply step_error_no_trace; exact E.
       + match goal with |- context [match ?lk with inl _ => _ | inr _ => _ end] => destruct lk as [sc|e'] end;
           [|unfold fail; intros H; inversion H; reflexivity].
@@ -94,7 +95,8 @@ Section SchemaProofs.
   Proof.
     unfold sstep, without_schemas. cbn [ss_base ss_schemas ss_slogs ss_logver].
     destruct (find_ik (s_logs (ss_base ss)) (o_ik o)) as [lg|].
-    - destruct (step f now (ss_base ss) o) as [s' [lid tid hit|e]|]; simpl; auto.
+    - unfold log_template. cbn [ss_logver]. destruct (negb _); [unfold fail; simpl; auto|].
+      destruct (step f now (ss_base ss) o) as [s' [lid tid hit|e]|]; simpl; auto.
     - assert (E1 : (if String.eqb "" "" then match latest_schema (ss_schemas ss), Audit with
                                                | Some _, Strict => inr ESchemaNotSpecified | _, _ => inl None end
                     else match find_schema (ss_schemas ss) "" with Some r => inl (Some r) | None => inr ESchemaNotFound end)
@@ -118,6 +120,28 @@ Section SchemaProofs.
   Proof.
     intros Hv Hf Hik Hr Hrun. unfold sstep. rewrite Hik, Hf. apply String.eqb_neq in Hv. rewrite Hv.
     cbv beta iota. rewrite Hr, Hrun. rewrite andb_false_r. destruct (o_dry o); eexists; reflexivity.
+  Qed.
+
+  (* a schema with templates, no template named (and no template literally named ""): the submitted input runs,
+     exactly as under the same schema without templates *)
+  Lemma audit_no_template_resolves r i :
+    aget String.eqb (sc_templates r) ""%string = None ->
+    resolve_template Audit (Some r) "" i = Some i /\
+    resolve_template Audit (Some r) "" i
+    = resolve_template Audit (Some {| sc_version := sc_version r; sc_chart := sc_chart r; sc_templates := []; sc_created := sc_created r |}) "" i.
+  Proof.
+    intros H. unfold resolve_template. destruct i; simpl; try (split; reflexivity).
+    destruct (sc_templates r); [split; reflexivity|]. rewrite H. split; reflexivity.
+  Qed.
+
+  Theorem audit_template_optional now ss v o r s1 p :
+    v <> ""%string -> find_schema (ss_schemas ss) v = Some r -> find_ik (s_logs (ss_base ss)) (o_ik o) = None ->
+    aget String.eqb (sc_templates r) ""%string = None ->
+    run_input_d f now (ss_base ss) (chart_defaults re_valid re_match (Some r)) (o_in o) = Done s1 p ->
+    exists ss', sstep Audit now ss (SWrite v "" o) = SSR ss' (SOk (s_next_log s1) (payload_tx_id p) false).
+  Proof.
+    intros Hv Hf Hik Ht Hrun. eapply audit_ignores_chart_verdict; try eassumption.
+    apply audit_no_template_resolves, Ht.
   Qed.
 
   (* ---------- default metadata ---------- *)
